@@ -60,11 +60,13 @@ def k_exit(n: int, f0: bool, f1: bool, f2: bool, f3: bool) -> str:
 
 
 AK = ['file', 'dir', 'nonexistent', 'dot', 'non-utf8', 'untrashable', 'duplicate-of-first', 'link', 'dotdot-slash', 'empty-string',
-      'unwritable-info-dir']
+      'unwritable-info-dir', 'crowded-name']
+NAK = len(AK)
 MODES = [([], []), (['-f'], []), (['-i'], ['y', 'n', 'y', 'n']), (['-v'], []), (['-i'], ['n', 'n', 'n', 'n']), (['-f', '-v'], []),
          (['--trash-dir', '/v/td'], [])]  # one volume-independent trash dir for arguments that live on three volumes
 NMODE = len(MODES)
 BADNAME = 'bad\udcff'
+RAND = (12345, 23456, 34567, 45678)  # what the random suffix generator answers (names beyond the 100th collision)
 
 
 def arg_for(kind, pos):
@@ -90,6 +92,14 @@ def arg_for(kind, pos):
         return '/w/u%d' % pos, [W.f('/w/u%d' % pos, 'U', 0o644, 1500 + pos)], '/w/u%d' % pos
     if k == 'empty-string':
         return '', [], None
+    if k == 'crowded-name':
+        # 100 entries called cr, cr_1 .. cr_99 are already in the trash dir of /v: the next one needs a random suffix
+        nodes = [W.d(d), W.f(d + '/cr', 'CR%d' % pos, 0o644, 1700 + pos)]
+        for j in range(100):
+            nm = 'cr' if j == 0 else 'cr_%d' % j
+            nodes += [W.f('/v/.Trash-1000/files/' + nm, 'OLD', 0o644, 3000 + j),
+                      W.f('/v/.Trash-1000/info/' + nm + '.trashinfo', K.info_text('old/cr', '2019-01-01T00:00:00'), 0o600, 3200 + j)]
+        return d + '/cr', nodes, d + '/cr'
     if k == 'unwritable-info-dir':
         # volume /w2: its only usable trash dir exists, but no file can be created in its info/ (PathFaultHook below)
         return '/w2/n%d' % pos, [W.f('/w2/n%d' % pos, 'N', 0o644, 1600 + pos), W.d('/w2/.Trash-1000/files', 0o700), W.d('/w2/.Trash-1000/info', 0o700)], '/w2/n%d' % pos
@@ -135,7 +145,7 @@ def _case(n, k0, k1, k2, k3, mode):
         opts, stdin = MODES[mode]
         e = scen.env()
         label = '+'.join(AK[k] for k in kinds)
-        m, res = scen.run_model(world, [{'snap': '/'}, C('put', opts + ['--'] + args, e, stdin=list(stdin), cwd='/v'), {'snap': '/'}], hook=_hook(), max_ops=60000)
+        m, res = scen.run_model(world, [{'snap': '/'}, C('put', opts + ['--'] + args, e, stdin=list(stdin), cwd='/v', rand=RAND), {'snap': '/'}], hook=_hook(), max_ops=60000)
         before, r, after = res
         if r['exc']:
             culprit = 'non-utf8' if 'surrogates not allowed' in r['exc'] else label
@@ -162,7 +172,7 @@ def _case(n, k0, k1, k2, k3, mode):
             if interactive and reply_for.get(a):
                 reply = reply_for[a].pop(0)
             declined = interactive and reply is not None and not reply[:1] in ('y', 'Y')
-            if k in ('file', 'dir', 'link'):
+            if k in ('file', 'dir', 'link', 'crowded-name'):
                 if interactive and reply is None:
                     return rt.fail('C16:not-asked-under-i:%s' % k, 'argument %r of %r was not asked about; stdout %r' % (a, args, r['out'][-300:]))
                 expect.append(('untouched', False) if declined else ('trashed', False))
@@ -182,11 +192,11 @@ def _case(n, k0, k1, k2, k3, mode):
             if want_out is not None and not first_of_dup and got != want_out:
                 return rt.fail('C16:outcome:%s' % AK[kind], 'argument %d (%r, %s) of %r under %r: %s, expected %s; stderr %r' % (
                     pos, a, AK[kind], args, opts, got, want_out, r['err'][-300:]))
-            if AK[kind] in ('file', 'dir', 'link', 'non-utf8', 'untrashable', 'nonexistent', 'unwritable-info-dir'):
+            if AK[kind] in ('file', 'dir', 'link', 'non-utf8', 'untrashable', 'nonexistent', 'unwritable-info-dir', 'crowded-name'):
                 my_stdin = []
                 if interactive and want_out is not None:
                     my_stdin = ['n'] if (want_out == 'untouched' and not want_fail) else ['y']
-                ma, ra = scen.run_model(world, [{'snap': '/'}, C('put', opts + ['--', a], e, stdin=my_stdin, cwd='/v'), {'snap': '/'}], hook=_hook(), max_ops=60000)
+                ma, ra = scen.run_model(world, [{'snap': '/'}, C('put', opts + ['--', a], e, stdin=my_stdin, cwd='/v', rand=RAND), {'snap': '/'}], hook=_hook(), max_ops=60000)
                 alone = classify(ra[0], ra[2], p)
                 if alone != got and not first_of_dup:
                     return rt.fail('C16:outcome-depends-on-neighbours:%s' % AK[kind],
@@ -206,30 +216,30 @@ def _case(n, k0, k1, k2, k3, mode):
 
 
 def third_full():
-    """thorough tier (PARTITION = (k0, True)): the third argument ranges over all 11 kinds, else over 6 of them"""
+    """thorough tier (PARTITION = (k0, True)): the third argument ranges over all 12 kinds, else over 6 of them"""
     return bool(PARTITION is not None and PARTITION[1])
 
 
 def w_lists(n: int, k0: int, k1: int, k2: int, mode: int) -> str:
     """
     pre: PARTITION is None or k0 == PARTITION[0]
-    pre: 1 <= n <= 3 and 0 <= k0 < 11 and 0 <= k1 < 11 and 0 <= k2 < (11 if third_full() else 6) and 0 <= mode < NMODE
+    pre: 1 <= n <= 3 and 0 <= k0 < NAK and 0 <= k1 < NAK and 0 <= k2 < (NAK if third_full() else 6) and 0 <= mode < NMODE
     post: _ == ''
     """
     nn = rt.sel(n, 4)
     # (selectors of positions the list does not have are not branched on)
-    b = rt.sel(k1, 11) if nn >= 2 else 0
-    c = (rt.sel(k2, 11) if third_full() else rt.of([0, 2, 4, 6, 9, 10], k2)) if nn >= 3 else 0
-    return _case(nn, rt.sel(k0, 11), b, c, 0, rt.sel(mode, NMODE))
+    b = rt.sel(k1, NAK) if nn >= 2 else 0
+    c = (rt.sel(k2, NAK) if third_full() else rt.of([0, 2, 4, 6, 9, 11], k2)) if nn >= 3 else 0
+    return _case(nn, rt.sel(k0, NAK), b, c, 0, rt.sel(mode, NMODE))
 
 
 def w_lists4(k0: int, k1: int, k2: int, k3: int, mode: int) -> str:
     """
     pre: PARTITION is None or k0 == PARTITION
-    pre: 0 <= k0 < 11 and 0 <= k1 < 11 and 0 <= k2 < 11 and 0 <= k3 < 6 and 0 <= mode < NMODE
+    pre: 0 <= k0 < NAK and 0 <= k1 < NAK and 0 <= k2 < NAK and 0 <= k3 < 6 and 0 <= mode < NMODE
     post: _ == ''
     """
-    return _case(4, rt.sel(k0, 11), rt.sel(k1, 11), rt.sel(k2, 11), rt.of([0, 2, 4, 6, 9, 10], k3), rt.sel(mode, NMODE))
+    return _case(4, rt.sel(k0, NAK), rt.sel(k1, NAK), rt.sel(k2, NAK), rt.of([0, 2, 4, 6, 9, 11], k3), rt.sel(mode, NMODE))
 
 
 def obligations(tier):
@@ -237,10 +247,10 @@ def obligations(tier):
         CH('K_exit_code_and_iteration', MOD, 'k_exit', timeout=120, engine='K', regime='traced',
            encodes=['Context.trash_each', 'TrashPutReporter.exit_code', 'TrashAllResult.any_failure'],
            stubs=['SingleTrasher -> symbolic results'], bounds='0..4 arguments, every failure pattern'),
-        CH('W_argument_lists_up_to_3', MOD, 'w_lists', timeout=2400, partitions=[(k, tier == 'thorough') for k in range(11)], engine='W', regime='selector',
-           encodes=K.PUT_FUNCS, stubs=K.STUBS, bounds='lists of 1..3 arguments x 11 argument kinds per position (third position: %s) x 7 option sets' % ('11 kinds' if tier == 'thorough' else '6 kinds: 0 2 4 6 9 10')),
+        CH('W_argument_lists_up_to_3', MOD, 'w_lists', timeout=2400, partitions=[(k, tier == 'thorough') for k in range(NAK)], engine='W', regime='selector',
+           encodes=K.PUT_FUNCS, stubs=K.STUBS, bounds='lists of 1..3 arguments x 12 argument kinds per position (third position: %s) x 7 option sets' % ('12 kinds' if tier == 'thorough' else '6 kinds: 0 2 4 6 9 11')),
     ]
     if tier == 'thorough':
-        obs.append(CH('W_argument_lists_of_4', MOD, 'w_lists4', timeout=7000, partitions=list(range(11)), twin=False, engine='W',
-                      regime='selector', encodes=K.PUT_FUNCS, stubs=K.STUBS, bounds='lists of 4 arguments: 11 kinds for the first three positions, 6 for the fourth, x 7 option sets'))
+        obs.append(CH('W_argument_lists_of_4', MOD, 'w_lists4', timeout=7000, partitions=list(range(NAK)), twin=False, engine='W',
+                      regime='selector', encodes=K.PUT_FUNCS, stubs=K.STUBS, bounds='lists of 4 arguments: 12 kinds for the first three positions, 6 for the fourth, x 7 option sets'))
     return obs
